@@ -294,7 +294,7 @@ def print_assumptions(prop):
             cur = True
             continue
         if cur:
-            m = re.match(r"^([A-Za-z0-9_.']+)\s*:", line)
+            m = re.match(r"^([A-Za-z_][A-Za-z0-9_.']*)\s*(:|$)", line)
             if m:
                 axioms.add(m.group(1))
             elif line.strip() == "" or not line.startswith(" "):
